@@ -221,6 +221,16 @@ def _run_property(prop, tier, seed, cfg, sdir, t0):
             if x not in trusted:
                 trusted.append(x)
         cmds.extend(kani_info['cmds'])
+    # ---- K3 (thorough only): validate assumed dependency contracts with Kani; advisory -- a failure means the trusted base is wrong
+    dep_validation = []
+    if tier == 'thorough' and cfg.get('kani_advisory'):
+        import kani_run
+        adv = kani_run.run_group(prop, cfg['kani_advisory'], tier, sdir)
+        for o in adv['obligations']:
+            dep_validation.append({'fact': o['id'], 'status': o['status']})
+            if o['status'] == 'failed':
+                tool.append('[deps] ASSUMED dependency contract %s is REFUTED by Kani on the real dependency: the trusted base is wrong' % o['id'])
+        cmds.extend(adv['cmds'])
     # ---- bounded stand-ins for functions outside the verifier's reach (labelled bounded, never counted as proved) -------
     import replay_run
     bounded_info = []
@@ -263,6 +273,7 @@ def _run_property(prop, tier, seed, cfg, sdir, t0):
             'bounded_obligations': [{'obligation': o['id'], 'status': o['status'], 'bound': o['bounded']} for o in obligations if o.get('bounded')],
             'rewrites_applied': rewrites[:400], 'dropped_from_extracted_text': dropped[:100], 'source_hashes': hashes[:200],
             'seeds_run': len(seeds), 'unstable': unstable,
+            'dependency_contracts_validated_by_kani': dep_validation,
             'bounded_checks': bounded_info, 'bounded_checks_bound': replay_run.BOUNDS if bounded_info else '',
             'bounded_checks_note': 'bounded stand-ins run the real crate on a finite pool against an executable mirror of the oracle; they are '
                                    'NOT counted in obligations/discharged' if bounded_info else '',
